@@ -123,6 +123,10 @@ class PathOracle:
                 r = Fr(t.numerator_as_long(), t.denominator_as_long())
             elif z3.is_int_value(t):
                 r = Fr(t.as_long())
+            elif z3.is_true(t):
+                r = True
+            elif z3.is_false(t):
+                r = False
             elif z3.is_const(t):
                 r = PathOracle._env[str(t)]
             else:
@@ -144,6 +148,28 @@ class PathOracle:
                     r = ch[0]
                 elif kind == z3.Z3_OP_UNINTERPRETED and t.decl().name() == "inv":
                     r = 1 / ch[0]
+                elif kind == z3.Z3_OP_ITE:
+                    r = ch[1] if ch[0] else ch[2]
+                elif kind == z3.Z3_OP_AND:
+                    r = all(ch)
+                elif kind == z3.Z3_OP_OR:
+                    r = any(ch)
+                elif kind == z3.Z3_OP_NOT:
+                    r = not ch[0]
+                elif kind == z3.Z3_OP_LT:
+                    r = ch[0] < ch[1]
+                elif kind == z3.Z3_OP_LE:
+                    r = ch[0] <= ch[1]
+                elif kind == z3.Z3_OP_GT:
+                    r = ch[0] > ch[1]
+                elif kind == z3.Z3_OP_GE:
+                    r = ch[0] >= ch[1]
+                elif kind == z3.Z3_OP_EQ:
+                    r = ch[0] == ch[1]
+                elif kind == z3.Z3_OP_TRUE:
+                    r = True
+                elif kind == z3.Z3_OP_FALSE:
+                    r = False
                 else:
                     raise ValueError("numeval: operator " + str(t.decl()))
             cache[k] = (t, r)
@@ -367,10 +393,27 @@ def check_p2_step(W, prop):
             r["reason"] = "no path closed by normal form"
         W.results.append(r)
         rp_desc = quantile_replay(q, n, m, p, x)
-        G = 8
-        for g in range(0, len(hard_conf), G):
-            W.prove("Quantile.add-step conforms to P-square [solver, paths %d-%d of %d]" % (g + 1, min(g + G, len(hard_conf)), len(hard_conf)),
-                    pre + axioms, z3.And(*hard_conf[g:g + G]), role="%s:Quantile.p2-conformance" % prop, note=note_c, replay=rp_desc)
+        # paths that did not close: look for a replayable counterexample path by path under a budget, then report the rest
+        import time as _time
+        budget_end = _time.time() + (240 if W.tier == "quick" else 1800)
+        saved_timeout = W.query_timeout_ms
+        W.query_timeout_ms = 15000
+        found = 0
+        tried = 0
+        for g, goal in enumerate(hard_conf):
+            if _time.time() > budget_end or found >= 2:
+                break
+            tried += 1
+            r = W.prove("Quantile.add-step conforms to P-square [solver, unclosed path %d of %d]" % (g + 1, len(hard_conf)),
+                        pre + axioms, goal, role="%s:Quantile.p2-conformance" % prop, note=note_c, replay=rp_desc)
+            if r["verdict"] == "violated":
+                found += 1
+        W.query_timeout_ms = saved_timeout
+        if len(hard_conf) > tried:
+            W.results.append({"obligation": "M:Quantile.add-step conforms to P-square [%d further unclosed paths]" % (len(hard_conf) - tried),
+                              "engine": "mirsym", "verdict": "inconclusive", "role": "%s:Quantile.p2-conformance" % prop, "solver_s": 0.0,
+                              "reason": "paths on which implementation and reference did not normalise to the same terms and that were not "
+                                        "examined individually within the budget"})
         # positions and extreme markers are decided by linear branch conditions only: keep the linear part of each path
         # condition as antecedent (dropping conjuncts only strengthens the obligation) and stay in linear arithmetic
         lin_goals = []
